@@ -16,8 +16,8 @@ RULE = ("two-stage runs: stage 1 builds the generated system fault-free, stage 2
 ASSUMPTIONS = wa.ASSUMPTIONS
 REAL_VS_STUB = wa.REAL_VS_STUB
 PROBES = wa.PROBES + ["atoms_supplied", "centres_supplied", "supplied_and_generated_in_one_system",
-                      "ignored_molecule_present", "ignored_molecule_not_last", "earlier_call_same_input_path", "pdb_input"]
-PROFILE = {"sol_p": 0.25, "p_pdb": 0.2, "p_pre_call": 0.3, "n_moltypes": (1, 3), "n_entries": (2, 4), "max_molecules": 8, "max_count": 3, "maxres": 7,
+                      "ignored_molecule_present", "ignored_molecule_not_last", "earlier_call_same_input_path", "pdb_input", "synthetic_centres"]
+PROFILE = {"p_synth_centres": 0.25, "sol_p": 0.25, "p_pdb": 0.2, "p_pre_call": 0.3, "n_moltypes": (1, 3), "n_entries": (2, 4), "max_molecules": 8, "max_count": 3, "maxres": 7,
            "box_modes": ["cubic", "cubic", "noncubic", "density"], "faults": ["step", "start", "overlap"],
            "maxiter": [0, 1, 2, 800], "dilute_hint": True}
 
@@ -34,6 +34,8 @@ def gen_job(verif_seed, tier, index):
 
 
 def _nt(j, r):
+    if j.get("synthetic_centres"):
+        r["probes"]["synthetic_centres"] = 1
     if j.get("coord_ext") == "pdb":
         r["probes"]["pdb_input"] = 1
     return bool(j.get("coord_text")) and bool(j.get("expected_built"))
